@@ -17,10 +17,10 @@ def base_workloads(tier, rng, n_random=0, profile="small"):
     """a few fixed, feature-rich workloads + seeded random ones"""
     wls = [
         ({"seed": 11, "n_chr": 3, "groups": 3, "paralogs": 1, "novel": 2, "antisense": 1, "readthrough": 2, "intergenic_multi": 2,
-          "long_locus": 1},
+          "long_locus": 1, "ambig_multi": 4},
          {"read_group": "tag", "count_exons": True}),
         ({"seed": 12, "n_chr": 4, "groups": 12, "group_missing": 5, "paralogs": 2, "novel": 2, "n_bams": 2,
-          "dup_records": 1, "equal_len": 1, "pre_ids": 2, "novel_gene_overlap": 1, "novel_cov": 6},
+          "dup_records": 1, "equal_len": 1, "pre_ids": 2, "novel_gene_overlap": 1, "novel_cov": 6, "ambig_multi": 3},
          {"read_group": "read_id", "check_canonical": True, "count_exons": True}),
         ({"seed": 13, "n_chr": 3, "n_exp": 2, "exp_mode": "split", "paralogs": 1, "novel": 1},
          {"sqanti_output": True}),
